@@ -225,6 +225,38 @@ EXTRA = {
            "Batcher.__len__ is the ceiling of n / batch_size.",
     "C20": _NOCLASS,
 }
+# clauses added after seeding round 5 (DESIGN.md section 11, round 5)
+_MIXIN = (" Derived operations are inherited from collections.abc unless the override is in the confirmed table (a new override that "
+          "walks its iterable argument twice is a violation, any other is reported as not analysed); __iter__ hands out a fresh iterator.")
+_DEFAULTS = " No parameter with a mutable / stateful default object is stored into a field; class-level containers are assigned by the constructor on every path."
+EXTRA5 = {
+    "C01": _DEFAULTS + " The feeder thread (whose constructor resets per-call state) is built inside the generator body.",
+    "C02": " The feeder thread is built inside the generator body; the feeder's publication order and send accounting (C01.R2/R3) hold.",
+    "C03": " Only the replace thread's run() takes items from the replace queue; the feeder's publication order and send accounting hold.",
+    "C04": " stop() waits for the replace thread without a timeout.",
+    "C05": _DEFAULTS + " range(workers) sentinels are sent only when `workers` processes were started unconditionally.",
+    "C06": _MIXIN + _DEFAULTS + " No stored value is used as a truth value; every capacity >= 1 is accepted; a failed delete / look-up changes nothing.",
+    "C07": _MIXIN + _DEFAULTS + " No stored value is used as a truth value; every capacity >= 1 is accepted; a failed delete / look-up changes "
+           "nothing; a membership test on the cache itself counts as the look-up it is.",
+    "C08": " __iter__ hands out a fresh iterator.",
+    "C09": _MIXIN + _DEFAULTS,
+    "C10": _DEFAULTS + " No operator hands an operand out as its result.",
+    "C11": _MIXIN + " Every call of the index builder is guarded by `is None` of the offsets; the index builder reads a binary handle and the "
+           "index-file reader yields ints.",
+    "C12": _MIXIN + " The offset index holds byte positions of a binary handle.",
+    "C13": _MIXIN + " Record parsing is not memoised on a mutable result; the offset index holds byte positions of a binary handle.",
+    "C15": _MIXIN + _DEFAULTS,
+    "C16": " No exit of the constructor by-passes the validity / disjointness tests for a non-empty map; the map keeps no reference to the "
+           "caller's dict; __iter__ hands out a fresh iterator.",
+    "C17": " The element sequence is not re-ordered before the indices are drawn; a local holding None-or-score is not read as a truth "
+           "value; results do not come from run-time module state keyed without all arguments or shared as one mutable object.",
+    "C18": " Bound methods of the handle kept in locals count as accesses of the handle.",
+    "C19": " Results of the helpers do not come from run-time module state written by another function; Batcher.__iter__ (if any) hands "
+           "out a fresh iterator; BatcherIter does not traverse a one-shot input in its constructor.",
+    "C20": _MIXIN + _DEFAULTS + " FilePool's constructor does not traverse the iterable of paths it keeps for open().",
+}
+for _pid, _extra in EXTRA5.items():
+    EXTRA[_pid] = EXTRA.get(_pid, "") + _extra
 for _pid, _extra in EXTRA.items():
     if _extra and _extra.strip() not in CLAIMS[_pid]["text"]:
         CLAIMS[_pid]["text"] = CLAIMS[_pid]["text"].rstrip() + _extra
